@@ -223,19 +223,27 @@ macro "conn_side" : tactic =>
       | (rw [conn_of_conn? hcn]; done)
       | (right; rfl)))
 
+/-- hook: helper lemmas `Eff Y (helper … Y)` registered with `macro_rules` below -/
+syntax "eff_lemma" : tactic
+macro_rules | `(tactic| eff_lemma) => `(tactic| fail "no effect lemma applies")
+
 /-- the work-horse: decompose a handler body into context primitives -/
 macro "eff_steps" : tactic =>
   `(tactic| repeat' (first
-    | exact Eff.refl _
-    | assumption
-    | apply Eff.reply
-    | apply Eff.replySrc
-    | apply Eff.sendDisplay
-    | apply Eff.send
-    | apply Eff.sendAll
-    | apply Eff.panic
-    | (refine Eff.setConn ?_ (conn_id _ _) (by conn_side) (by conn_side))
-    | (refine Eff.foldl (fun _ _ => ?_) ?_ _; try dsimp only)
+    | with_reducible exact Eff.refl _
+    | with_reducible assumption
+    | with_reducible apply Eff.reply
+    | with_reducible apply Eff.replySrc
+    | with_reducible apply Eff.sendDisplay
+    | with_reducible apply Eff.send
+    | with_reducible apply Eff.sendAll
+    | with_reducible apply Eff.panic
+    | with_reducible (refine Eff.setConn ?_ (conn_id _ _) (by conn_side) (by conn_side))
+    | with_reducible apply Eff.modifyW
+    | (intro _ _; try dsimp only)
+    | (intro _; first | rfl | (split <;> rfl))
+    | eff_lemma
+    | with_reducible apply Eff.foldl
     | split))
 
 /-! ### 3. HConn: registration, PING/PONG, OPER, QUIT -/
@@ -298,17 +306,778 @@ theorem welcomeBurst_conns (cn : Conn) (um : Str) : (welcomeBurst cfg cn um X).w
   rw [Ctx.reply_w, Reg.processMotd_w, processLusers_conns, Reg.sendIsupport_w]
   rfl
 
-theorem addUser_conns (w : World) (n : Str) (u : User) : (w.addUser n u).conns = w.conns := by
-  unfold World.addUser
-  dsimp only
-  repeat' split
+theorem addUser_conns (w : World) (n : Str) (u : User) : (w.addUser n u).conns = w.conns :=
+  Reg.World.addUser_conns w n u
 
 theorem eff_authenticate : Eff cfg k q c X (authenticate cfg c X) := by
   unfold authenticate
   dsimp only
+  split
+  · exact Eff.refl _
+  · exact Eff.reply (Eff.refl _)
+  · split
+    · split
+      · exact Eff.panic (Eff.refl _)
+      · split
+        · split
+          · eff_steps
+          · split
+            · -- the welcome burst, then the ping waker takes the ping sender
+              refine Eff.setConn ?_ (conn_id _ _) ?_ ?_
+              · refine Eff.trans ?_ eff_welcomeBurst
+                refine Eff.modifyW ?_ (fun w => addUser_conns w _ _)
+                eff_steps
+              · intro cn hcn
+                left
+                rw [conn?_congr (welcomeBurst_conns _ _)] at hcn
+                rw [Ctx.modifyW_w, conn?_congr (addUser_conns _ _ _), Ctx.setConn_w, conn?_setConn,
+                  if_pos (conn_id _ _)] at hcn
+                cases hx : X.w.conn? c with
+                | none => rw [hx] at hcn; cases hcn
+                | some cn0 =>
+                  rw [hx] at hcn
+                  simp only [Option.map_some, Option.some.injEq] at hcn
+                  rw [← hcn]
+              · intro cn hcn
+                rw [conn?_congr (welcomeBurst_conns _ _)] at hcn
+                rw [Ctx.modifyW_w, conn?_congr (addUser_conns _ _ _), Ctx.setConn_w, conn?_setConn,
+                  if_pos (conn_id _ _)] at hcn
+                cases hx : X.w.conn? c with
+                | none => rw [hx] at hcn; cases hcn
+                | some cn0 =>
+                  rw [hx] at hcn
+                  simp only [Option.map_some, Option.some.injEq] at hcn
+                  rw [← hcn, conn_of_conn? hx]
+            · apply Eff.panic
+              refine Eff.trans ?_ eff_welcomeBurst
+              refine Eff.modifyW ?_ (fun w => addUser_conns w _ _)
+              eff_steps
+        · eff_steps
+    · refine Eff.badPassword (Eff.refl _) ?_ ?_
+      · exact conn_id _ _
+      · conn_side
+
+/-- a second `setConn` right after a first one for the same connection -/
+theorem Eff.setConn2 (h : Eff cfg k q c X (Y.setConn cn1)) {cn2 : Conn} (hid1 : cn1.id = c)
+    (hid2 : cn2.id = c) (hq : cn2.quit = cn1.quit) (hk : cn2.killedBy = cn1.killedBy) :
+    Eff cfg k q c X ((Y.setConn cn1).setConn cn2) := by
+  have key : ∀ cn, (Y.setConn cn1).w.conn? c = some cn → cn = cn1 := by
+    intro cn hcn
+    rw [Ctx.setConn_w, conn?_setConn, if_pos hid1] at hcn
+    cases hx : Y.w.conn? c with
+    | none => rw [hx] at hcn; cases hcn
+    | some cn0 =>
+      rw [hx] at hcn
+      simp only [Option.map_some, Option.some.injEq] at hcn
+      exact hcn.symm
+  refine Eff.setConn h hid2 ?_ ?_
+  · intro cn hcn; rw [key cn hcn]; exact Or.inl hq
+  · intro cn hcn; rw [key cn hcn]; exact hk
+
+theorem eff_processCap {sub : CapCommand} {caps : Option (List Str)} :
+    Eff cfg k q c X (processCap cfg c sub caps X) := by
+  unfold processCap
+  dsimp only
+  split
+  · eff_steps
+  · eff_steps
+  · split
+    · split
+      · apply Eff.reply
+        refine Eff.setConn2 ?_ (conn_id _ _) ?_ ?_ ?_
+        · eff_steps
+        · split
+          · exact conn_id _ _
+          · exact conn_id _ _
+        · split <;> rfl
+        · split <;> rfl
+      · eff_steps
+    · eff_steps
+  · split
+    · refine Eff.trans ?_ eff_authenticate
+      eff_steps
+    · eff_steps
+
+theorem eff_processAuthenticate : Eff cfg k q c X (processAuthenticate cfg c X) := by
+  unfold processAuthenticate
   eff_steps
-  all_goals trace_state
+
+theorem eff_processPass {p : Str} : Eff cfg k q c X (processPass cfg c p X) := by
+  unfold processPass
+  dsimp only
+  split
+  · refine Eff.trans ?_ eff_authenticate
+    eff_steps
+  · eff_steps
+
+theorem eff_processUser {u r : Str} : Eff cfg k q c X (processUser cfg c u r X) := by
+  unfold processUser
+  dsimp only
+  split
+  · refine Eff.trans ?_ eff_authenticate
+    refine Eff.setConn (Eff.refl _) ?_ ?_ ?_
+    · exact conn_id _ _
+    · intro cn hcn; left; rw [conn_of_conn? hcn]; rfl
+    · intro cn hcn; rw [conn_of_conn? hcn]; rfl
+  · eff_steps
+
+theorem renameInChannels_conns (old new : Str) (chs : List Str) (w : World) :
+    (renameInChannels old new chs w).conns = w.conns := by
+  unfold renameInChannels
+  induction chs generalizing w with
+  | nil => rfl
+  | cons a l ih =>
+    rw [List.foldl_cons, ih]
+    split
+    · rfl
+    · split <;> rfl
+
+theorem eff_processNick {n : Str} {msg : Message} : Eff cfg k q c X (processNick cfg c n msg X) := by
+  unfold processNick
+  dsimp only
+  split
+  · split
+    · refine Eff.trans ?_ eff_authenticate
+      refine Eff.setConn (Eff.refl _) ?_ ?_ ?_
+      · exact conn_id _ _
+      · intro cn hcn; left; rw [conn_of_conn? hcn]; rfl
+      · intro cn hcn; rw [conn_of_conn? hcn]; rfl
+    · eff_steps
+  · split
+    · eff_steps
+    · split
+      · split
+        · split
+          · eff_steps
+          · apply Eff.sendAll
+            refine Eff.modifyW ?_ ?_
+            · refine Eff.setConn (Eff.refl _) ?_ ?_ ?_
+              · exact conn_id _ _
+              · intro cn hcn; left; rw [conn_of_conn? hcn]; rfl
+              · intro cn hcn; rw [conn_of_conn? hcn]; rfl
+            · intro w
+              split <;> exact renameInChannels_conns _ _ _ _
+        · eff_steps
+      · eff_steps
+
+theorem eff_processPing {t : Str} : Eff cfg k q c X (processPing cfg c t X) := by
+  unfold processPing
+  eff_steps
+
+theorem eff_processPong : Eff cfg k q c X (processPong cfg c X) := by
+  unfold processPong
+  eff_steps
+
+theorem eff_processOper {n p : Str} : Eff cfg k q c X (processOper cfg c n p X) := by
+  unfold processOper
+  dsimp only
+  eff_steps
+
+/-- QUIT is the one handler that may set the sender's own `quit` flag without a 464 -/
+theorem eff_processQuit : Eff cfg k true c X (processQuit cfg c X) := by
+  unfold processQuit
+  dsimp only
+  eff_steps
+
+/-! ### 4. HChannel -/
+
+theorem eff_namesLines {cn : Conn} {chname : Str} {ch : Channel} {users : Map User} :
+    Eff cfg k q c X (namesLines cfg cn chname ch users X) := by
+  unfold namesLines
+  dsimp only
+  eff_steps
+
+theorem eff_sendNamesFromChannel {c' : Nat} {chname : Str} {ch : Channel} {e : Bool} :
+    Eff cfg k q c X (sendNamesFromChannel cfg c' chname ch e X) := by
+  unfold sendNamesFromChannel
+  dsimp only
+  repeat' split
+  all_goals first
+    | exact Eff.refl _
+    | exact eff_namesLines
+    | exact Eff.reply eff_namesLines
+
+theorem eff_processNames {chs : List Str} : Eff cfg k q c X (processNames cfg c chs X) := by
+  unfold processNames
+  dsimp only
+  split
+  · refine Eff.foldl (fun Y a => ?_) (Eff.refl _) _
+    split
+    · exact eff_sendNamesFromChannel
+    · eff_steps
+  · apply Eff.reply
+    refine Eff.foldl (fun Y a => ?_) (Eff.refl _) _
+    exact eff_sendNamesFromChannel
+
+theorem rufc_conns (w : World) (ch n : Str) : (w.removeUserFromChannel ch n).conns = w.conns :=
+  (Memb.rufc_frame w ch n).conns
+
+theorem joinApply_conns (nick : Str) (ds : List (Bool × Bool)) (chs : List Str) (w : World) :
+    (joinApply nick ds chs w).conns = w.conns := by
+  fun_induction joinApply nick ds chs w with
+  | case1 join create ds chn chs w w1 ih =>
+    rw [ih]
+    simp only [w1]
+    repeat' split
+    all_goals rfl
+  | case2 => rfl
+
+theorem eff_joinAnnounce {nick : Str} {ds : List (Bool × Bool)} {chs : List Str} :
+    Eff cfg k q c X (joinAnnounce cfg c nick ds chs X) := by
+  fun_induction joinAnnounce cfg c nick ds chs X with
+  | case1 join x ds chn chs X X1 ih =>
+    refine Eff.trans ?_ ih
+    simp only [X1]
+    split
+    · split
+      · eff_steps
+      · refine Eff.foldl (fun Y a => ?_) ?_ _
+        · eff_steps
+        · refine Eff.trans ?_ eff_sendNamesFromChannel
+          eff_steps
+    · exact Eff.refl _
+  | case2 => exact Eff.refl _
+
+theorem eff_processJoin {chs : List Str} {keys : Option (List Str)} :
+    Eff cfg k q c X (processJoin cfg c chs keys X) := by
+  unfold processJoin
+  dsimp only
+  split
+  · eff_steps
+  · split
+    · eff_steps
+    · refine Eff.trans ?_ eff_joinAnnounce
+      refine Eff.modifyW ?_ (fun w => joinApply_conns _ _ _ w)
+      eff_steps
+
+theorem eff_processPart {chs : List Str} {r : Option Str} :
+    Eff cfg k q c X (processPart cfg c chs r X) := by
+  unfold processPart
+  dsimp only
+  eff_steps
+  all_goals (intro w; exact rufc_conns w _ _)
 
 end
+
+theorem Eff.then_unsupported {cfg : Cfg} {k q : Bool} {c : Nat} {X Y : Ctx} {client : Str} {s : String} (h : Eff cfg k q c X Y) :
+    Eff cfg k q c X (unsupported cfg client s Y) :=
+  h.trans eff_unsupported
+macro_rules | `(tactic| eff_lemma) => `(tactic| with_reducible apply Eff.then_unsupported)
+theorem Eff.then_sendIsupport {cfg : Cfg} {k q : Bool} {c : Nat} {X Y : Ctx} {client : Str} (h : Eff cfg k q c X Y) :
+    Eff cfg k q c X (sendIsupport cfg client Y) :=
+  h.trans eff_sendIsupport
+macro_rules | `(tactic| eff_lemma) => `(tactic| with_reducible apply Eff.then_sendIsupport)
+theorem Eff.then_sendNamesFromChannel {cfg : Cfg} {k q : Bool} {c : Nat} {X Y : Ctx} {c' : Nat} {chname : Str} {ch : Channel} {e : Bool} (h : Eff cfg k q c X Y) :
+    Eff cfg k q c X (sendNamesFromChannel cfg c' chname ch e Y) :=
+  h.trans eff_sendNamesFromChannel
+macro_rules | `(tactic| eff_lemma) => `(tactic| with_reducible apply Eff.then_sendNamesFromChannel)
+
+section
+variable {cfg : Cfg} {k q : Bool} {c : Nat} {X Y : Ctx}
+
+theorem Eff.foldlP {α β : Type} (proj : β → Ctx) {f : β → α → β}
+    (hf : ∀ b a, Eff cfg k q c (proj b) (proj (f b a))) {b : β}
+    (h : Eff cfg k q c X (proj b)) (l : List α) : Eff cfg k q c X (proj (l.foldl f b)) := by
+  induction l generalizing b with
+  | nil => exact h
+  | cons a l ih => exact ih (h.trans (hf b a))
+
+theorem eff_processTopic {ch : Str} {t : Option Str} {msg : Message} :
+    Eff cfg k q c X (processTopic cfg c ch t msg X) := by
+  unfold processTopic
+  dsimp only
+  eff_steps
+
+theorem eff_processList {chs : List Str} {srv : Option Str} :
+    Eff cfg k q c X (processList cfg c chs srv X) := by
+  unfold processList listLine
+  dsimp only
+  eff_steps
+
+theorem eff_processInvite {n ch : Str} {msg : Message} :
+    Eff cfg k q c X (processInvite cfg c n ch msg X) := by
+  unfold processInvite
+  dsimp only
+  eff_steps
+
+theorem rufc_foldl_conns (ch : Str) (l : List Str) (w : World) :
+    (l.foldl (fun w ku => w.removeUserFromChannel ch ku) w).conns = w.conns := by
+  induction l generalizing w with
+  | nil => rfl
+  | cons a l ih => rw [List.foldl_cons, ih, rufc_conns]
+
+theorem eff_processKick {ch : Str} {us : List Str} {cm : Option Str} :
+    Eff cfg k q c X (processKick cfg c ch us cm X) := by
+  unfold processKick
+  dsimp only
+  eff_steps
+  all_goals (intro w; exact rufc_foldl_conns _ _ w)
+
+/-! ### 5. HRest -/
+
+theorem eff_privmsgTarget {nick : Str} {notice : Bool} {text target : Str} :
+    Eff cfg k q c X (privmsgTarget cfg c nick notice text target X).1 := by
+  unfold privmsgTarget
+  dsimp only
+  repeat' split
+  all_goals (try dsimp only)
+  all_goals eff_steps
+
+theorem eff_processPrivmsgNotice {ts : List Str} {t : Str} {notice : Bool} :
+    Eff cfg k q c X (processPrivmsgNotice cfg c ts t notice X) := by
+  unfold processPrivmsgNotice
+  split
+  · eff_steps
+  · rename_i nick _
+    have key : ∀ p : Ctx × Bool, Eff cfg k q c X p.1 →
+        Eff cfg k q c X ((dedup ts).foldl (fun (x, d) t' =>
+          let (x', d') := privmsgTarget cfg c nick notice t t' x
+          (x', d || d')) p).1 := by
+      intro p hp
+      refine Eff.foldlP Prod.fst (fun b a => ?_) hp _
+      obtain ⟨x, d⟩ := b
+      dsimp only
+      have h := eff_privmsgTarget (cfg := cfg) (k := k) (q := q) (c := c) (X := x) (nick := nick)
+        (notice := notice) (text := t) (target := a)
+      generalize privmsgTarget cfg c nick notice t a x = pt at h ⊢
+      obtain ⟨x', d'⟩ := pt
+      exact h
+    have h0 := key (X, false) (Eff.refl _)
+    dsimp only
+    generalize (dedup ts).foldl _ (X, false) = r at h0 ⊢
+    obtain ⟨x, d⟩ := r
+    dsimp only at h0 ⊢
+    split
+    · exact Eff.panic h0
+    · exact h0
+
+theorem eff_sendWhoInfo {cn : Conn} {chn : Option (Str × ChanUserModes)} {n : Str} {u cu : User} :
+    Eff cfg k q c X (sendWhoInfo cfg cn chn n u cu X) := by
+  unfold sendWhoInfo
+  eff_steps
+
+end
+
+theorem Eff.then_sendWhoInfo {cfg : Cfg} {k q : Bool} {c : Nat} {X Y : Ctx} {cn : Conn} {chn : Option (Str × ChanUserModes)} {n : Str} {u cu : User}
+    (h : Eff cfg k q c X Y) : Eff cfg k q c X (sendWhoInfo cfg cn chn n u cu Y) :=
+  h.trans eff_sendWhoInfo
+macro_rules | `(tactic| eff_lemma) => `(tactic| with_reducible apply Eff.then_sendWhoInfo)
+
+section
+variable {cfg : Cfg} {k q : Bool} {c : Nat} {X Y : Ctx}
+
+theorem eff_processWho {mask : Str} : Eff cfg k q c X (processWho cfg c mask X) := by
+  unfold processWho
+  dsimp only
+  eff_steps
+
+theorem eff_whoisOne {cn : Conn} {u : User} {n : Str} : Eff cfg k q c X (whoisOne cfg cn u n X) := by
+  unfold whoisOne
+  dsimp only
+  eff_steps
+
+end
+
+theorem Eff.then_whoisOne {cfg : Cfg} {k q : Bool} {c : Nat} {X Y : Ctx} {cn : Conn} {u : User} {n : Str} (h : Eff cfg k q c X Y) :
+    Eff cfg k q c X (whoisOne cfg cn u n Y) :=
+  h.trans eff_whoisOne
+macro_rules | `(tactic| eff_lemma) => `(tactic| with_reducible apply Eff.then_whoisOne)
+
+section
+variable {cfg : Cfg} {k q : Bool} {c : Nat} {X Y : Ctx}
+
+theorem eff_processWhois {t : Option Str} {ns : List Str} :
+    Eff cfg k q c X (processWhois cfg c t ns X) := by
+  unfold processWhois
+  dsimp only
+  eff_steps
+
+theorem eff_processWhowas {n : Str} {cnt : Option Nat} {srv : Option Str} :
+    Eff cfg k q c X (processWhowas cfg c n cnt srv X) := by
+  unfold processWhowas
+  dsimp only
+  eff_steps
+
+theorem eff_processAway {t : Option Str} : Eff cfg k q c X (processAway cfg c t X) := by
+  unfold processAway
+  dsimp only
+  eff_steps
+
+theorem eff_processUserhost {ns : List Str} : Eff cfg k q c X (processUserhost cfg c ns X) := by
+  unfold processUserhost
+  dsimp only
+  eff_steps
+
+theorem eff_processWallops {msg : Message} : Eff cfg k q c X (processWallops cfg c msg X) := by
+  unfold processWallops
+  dsimp only
+  eff_steps
+
+theorem eff_processIson {ns : List Str} : Eff cfg k q c X (processIson cfg c ns X) := by
+  unfold processIson
+  dsimp only
+  eff_steps
+
+/-! ### 6. KILL / DIE / SQUIT: other connections get `killedBy`, nobody's `quit` changes -/
+
+/-- a world transformer that only marks connections as killed -/
+def KillLike (f : World → World) : Prop := ∀ w,
+  (∀ y, y ∈ (f w).conns → ∃ y0, y0 ∈ w.conns ∧ y0.id = y.id ∧ y0.quit = y.quit) ∧
+  (∀ c cn, w.conn? c = some cn → ∃ cn', (f w).conn? c = some cn' ∧ cn'.quit = cn.quit)
+
+theorem fireKill_killLike (killer comment nick : Str) : KillLike (fireKill killer comment nick) := by
+  intro w
+  have hid : (∀ y, y ∈ w.conns → ∃ y0, y0 ∈ w.conns ∧ y0.id = y.id ∧ y0.quit = y.quit) ∧
+      (∀ c cn, w.conn? c = some cn → ∃ cn', w.conn? c = some cn' ∧ cn'.quit = cn.quit) :=
+    ⟨fun y hy => ⟨y, hy, rfl, rfl⟩, fun c cn h => ⟨cn, h, rfl⟩⟩
+  unfold fireKill
+  split
+  · exact hid
+  · rename_i u _
+    dsimp only
+    split
+    · exact hid
+    · split
+      · rename_i cn hcn
+        have hcn' : w.conn? u.owner = some cn := hcn
+        constructor
+        · intro y hy
+          rcases mem_setConn hy with ⟨hy0, _⟩ | ⟨rfl, _⟩
+          · exact ⟨y, hy0, rfl, rfl⟩
+          · exact ⟨cn, conn?_mem hcn', rfl, rfl⟩
+        · intro c cn0 hc0
+          rw [conn?_setConn]
+          show ∃ cn', (if cn.id = c then Option.map _ (w.conn? c) else w.conn? c) = some cn' ∧ _
+          split
+          · rename_i e
+            rw [hc0]
+            refine ⟨_, rfl, ?_⟩
+            have : u.owner = c := (conn?_id hcn').symm.trans e
+            rw [this, hc0] at hcn'
+            cases hcn'
+            rfl
+          · exact ⟨cn0, hc0, rfl⟩
+      · exact hid
+
+theorem KillLike.foldl (killer comment : Str) (l : List Str) :
+    KillLike (fun w => l.foldl (fun w n => fireKill killer comment n w) w) := by
+  induction l with
+  | nil => intro w; exact ⟨fun y hy => ⟨y, hy, rfl, rfl⟩, fun c cn h => ⟨cn, h, rfl⟩⟩
+  | cons a l ih =>
+    intro w
+    simp only [List.foldl_cons]
+    obtain ⟨a1, b1⟩ := fireKill_killLike killer comment a w
+    obtain ⟨a2, b2⟩ := ih (fireKill killer comment a w)
+    constructor
+    · intro y hy
+      obtain ⟨y1, hy1, i1, q1⟩ := a2 y hy
+      obtain ⟨y0, hy0, i0, q0⟩ := a1 y1 hy1
+      exact ⟨y0, hy0, i0.trans i1, q0.trans q1⟩
+    · intro c cn hc
+      obtain ⟨cn1, hc1, q1⟩ := b1 c cn hc
+      obtain ⟨cn2, hc2, q2⟩ := b2 c cn1 hc1
+      exact ⟨cn2, hc2, q2.trans q1⟩
+
+theorem Eff.modifyW_kill (h : Eff cfg true q c X Y) {f : World → World} (hf : KillLike f) :
+    Eff cfg true q c X (Y.modifyW f) := by
+  refine h.trans ⟨List.prefix_refl _, List.prefix_refl _, ?_, ?_⟩
+  · intro y hy
+    obtain ⟨y0, hy0, hid, hq⟩ := (hf Y.w).1 y hy
+    exact ⟨y0, hy0, hid, fun _ => ⟨hq, fun hk => by cases hk⟩⟩
+  · intro cn hcn
+    obtain ⟨cn', hcn', hq⟩ := (hf Y.w).2 c cn hcn
+    exact ⟨cn', hcn', Or.inl hq, fun hk => by cases hk⟩
+
+theorem eff_processKill {n cm : Str} : Eff cfg true q c X (processKill cfg c n cm X) := by
+  unfold processKill
+  dsimp only
+  repeat' split
+  all_goals first
+    | exact Eff.reply (Eff.refl _)
+    | exact Eff.panic (Eff.refl _)
+    | exact Eff.modifyW_kill (Eff.refl _) (fireKill_killLike _ _ _)
+
+theorem eff_processDie {m : Option Str} : Eff cfg true q c X (processDie cfg c m X) := by
+  unfold processDie
+  dsimp only
+  repeat' split
+  all_goals first
+    | exact Eff.reply (Eff.refl _)
+    | exact Eff.panic (Eff.refl _)
+    | (refine Eff.modifyW_kill (Eff.refl _) ?_
+       intro w
+       exact KillLike.foldl _ _ (Map.keys w.users) w)
+
+theorem eff_processSquit {srv cm : Str} : Eff cfg true q c X (processSquit cfg c srv cm X) := by
+  unfold processSquit
+  split
+  · exact eff_unsupported
+  · exact eff_processDie
+
+/-! ### 7. HQuery -/
+
+theorem eff_processVersion {t : Option Str} : Eff cfg k q c X (processVersion cfg c t X) := by
+  unfold processVersion
+  dsimp only
+  eff_steps
+
+theorem eff_processAdmin {t : Option Str} : Eff cfg k q c X (processAdmin cfg c t X) := by
+  unfold processAdmin
+  dsimp only
+  eff_steps
+
+theorem eff_processTime {t : Option Str} : Eff cfg k q c X (processTime cfg c t X) := by
+  unfold processTime
+  dsimp only
+  eff_steps
+
+theorem eff_processStats {st : Char} {t : Option Str} : Eff cfg k q c X (processStats cfg c st t X) := by
+  unfold processStats
+  dsimp only
+  eff_steps
+
+theorem eff_processLinks {r m : Option Str} : Eff cfg k q c X (processLinks cfg c r m X) := by
+  unfold processLinks
+  dsimp only
+  eff_steps
+
+theorem eff_helpLines {client subject : Str} {i : Nat} {lines : List Str} {total : Nat} :
+    Eff cfg k q c X (helpLines cfg client subject i lines total X) := by
+  fun_induction helpLines cfg client subject i lines total X with
+  | case1 => exact Eff.refl _
+  | case2 i line rest total X X1 ih =>
+    refine Eff.trans ?_ ih
+    simp only [X1]
+    eff_steps
+
+theorem eff_processHelp {sub : Option Str} : Eff cfg k q c X (processHelp cfg c sub X) := by
+  unfold processHelp
+  dsimp only
+  split
+  · exact eff_helpLines
+  · eff_steps
+
+theorem eff_processInfo : Eff cfg k q c X (processInfo cfg c X) := by
+  unfold processInfo
+  dsimp only
+  eff_steps
+
+/-! ### 8. MODE -/
+
+theorem Eff.iteM {p : Prop} [Decidable p] {A B : ModeAcc} (hA : Eff cfg k q c X A.x)
+    (hB : Eff cfg k q c X B.x) : Eff cfg k q c X (if p then A else B).x := by
+  split <;> assumption
+
+theorem Eff.iteU {p : Prop} [Decidable p] {A B : UModeAcc} (hA : Eff cfg k q c X A.x)
+    (hB : Eff cfg k q c X B.x) : Eff cfg k q c X (if p then A else B).x := by
+  split <;> assumption
+
+theorem eff_modeChar {cn : Conn} {target : Str} {chum : ChanUserModes} {a : ModeAcc} {m : Char} :
+    Eff cfg k q c a.x (modeChar cfg cn target chum a m).x := by
+  unfold modeChar
+  extract_lets +onlyGivenNames client nick err482 preChecked a1
+  have h1 : Eff cfg k q c a.x a1.x := by
+    simp only [a1]
+    split
+    · exact Eff.reply (Eff.refl _)
+    · exact Eff.refl _
+  clear_value a1
+  refine Eff.trans h1 ?_
+  dsimp only
+  repeat' (first | with_reducible apply Eff.iteM | split)
+  all_goals (try dsimp only)
+  all_goals eff_steps
+
+theorem eff_modeGroup {cn : Conn} {target : Str} {chum : ChanUserModes} {a : ModeAcc}
+    {g : Str × List Str} : Eff cfg k q c a.x (modeGroup cfg cn target chum a g).x := by
+  unfold modeGroup
+  refine Eff.foldlP ModeAcc.x (f := modeChar cfg cn target chum) (fun b m => eff_modeChar) ?_ _
+  exact Eff.refl _
+
+theorem eff_processModeChannel {target : Str} {ch : Channel} {modes : List (Str × List Str)}
+    {chum : ChanUserModes} : Eff cfg k q c X (processModeChannel cfg c target ch modes chum X) := by
+  unfold processModeChannel
+  dsimp only
+  have key : Eff cfg k q c X
+      (modes.foldl (modeGroup cfg (X.conn c) target chum) { x := X, ch := ch, args := [] }).x := by
+    refine Eff.foldlP ModeAcc.x (f := modeGroup cfg (X.conn c) target chum)
+      (fun b g => eff_modeGroup) ?_ _
+    exact Eff.refl _
+  eff_steps
+
+theorem eff_umodeChar {cn : Conn} {nick : Str} {a : UModeAcc} {m : Char} :
+    Eff cfg k q c a.x (umodeChar cfg cn nick a m).x := by
+  unfold umodeChar
+  dsimp only
+  repeat' (first | with_reducible apply Eff.iteU | split)
+  all_goals (try dsimp only)
+  all_goals eff_steps
+
+theorem eff_processModeUser {target : Str} {modes : List (Str × List Str)} :
+    Eff cfg k q c X (processModeUser cfg c target modes X) := by
+  unfold processModeUser
+  dsimp only
+  split
+  · eff_steps
+  · rename_i user _
+    have key : Eff cfg k q c X
+        (modes.foldl (fun a g =>
+          g.1.foldl (umodeChar cfg (X.conn c) target) { a with modeSet := false })
+          { x := X, modes := user.modes : UModeAcc }).x := by
+      refine Eff.foldlP UModeAcc.x (f := fun (a : UModeAcc) (g : Str × List Str) =>
+          g.1.foldl (umodeChar cfg (X.conn c) target) { a with modeSet := false })
+        (fun b g => ?_) ?_ _
+      · refine Eff.foldlP UModeAcc.x (f := umodeChar cfg (X.conn c) target)
+          (fun b m => eff_umodeChar) ?_ _
+        exact Eff.refl _
+      · exact Eff.refl _
+    eff_steps
+
+theorem eff_processMode {target : Str} {modes : List (Str × List Str)} :
+    Eff cfg k q c X (processMode cfg c target modes X) := by
+  unfold processMode
+  dsimp only
+  repeat' split
+  all_goals first
+    | exact eff_processModeChannel
+    | exact eff_processModeUser
+    | eff_steps
+
+end
+
+/-! ### 9. the dispatcher and `handleLine` -/
+
+/-- the three commands that fire other users' quit signals -/
+def mayKill : Command → Bool
+  | .KILL .. | .DIE .. | .SQUIT .. => true
+  | _ => false
+
+def isQuit : Command → Bool
+  | .QUIT => true
+  | _ => false
+
+/-- the command a line is parsed to (if it gets that far) -/
+def lineCmd (s : Str) : Option Command :=
+  match Message.parse s with
+  | .ok msg =>
+    (match Command.fromMessage msg with
+     | .ok cmd => some cmd
+     | .error _ => none)
+  | .error _ => none
+
+def lineKills (s : Str) : Bool :=
+  match lineCmd s with
+  | some cmd => mayKill cmd
+  | none => false
+
+def lineQuits (s : Str) : Bool :=
+  match lineCmd s with
+  | some cmd => isQuit cmd
+  | none => false
+
+section
+variable {cfg : Cfg} {c : Nat} {X : Ctx}
+
+theorem eff_dispatch {msg : Message} {cmd : Command} :
+    Eff cfg (mayKill cmd) (isQuit cmd) c X (dispatch cfg c msg cmd X) := by
+  cases cmd with
+  | CAP sub caps v => exact eff_processCap
+  | AUTHENTICATE => exact eff_processAuthenticate
+  | PASS p => exact eff_processPass
+  | NICK n => exact eff_processNick
+  | USER u a b r => exact eff_processUser
+  | QUIT => exact eff_processQuit
+  | PING t => exact eff_processPing
+  | PONG t => exact eff_processPong
+  | MOTD t => exact eff_processMotd
+  | LUSERS => exact eff_processLusers
+  | CONNECT a b d => exact eff_unsupported
+  | REHASH => exact eff_unsupported
+  | RESTART => exact eff_unsupported
+  | NAMES chs => exact eff_processNames
+  | LIST chs s => exact eff_processList
+  | VERSION t => exact eff_processVersion
+  | ADMIN t => exact eff_processAdmin
+  | TIME s => exact eff_processTime
+  | LINKS r m => exact eff_processLinks
+  | HELP s => exact eff_processHelp
+  | INFO => exact eff_processInfo
+  | WHOWAS n cnt s => exact eff_processWhowas
+  | USERHOST ns => exact eff_processUserhost
+  | ISON ns => exact eff_processIson
+  | OPER n p => exact eff_processOper
+  | JOIN chs keys => exact eff_processJoin
+  | PART chs r => exact eff_processPart
+  | TOPIC ch t => exact eff_processTopic
+  | INVITE n ch => exact eff_processInvite
+  | KICK ch us cm => exact eff_processKick
+  | STATS q s => exact eff_processStats
+  | MODE t ms => exact eff_processMode
+  | PRIVMSG ts t => exact eff_processPrivmsgNotice
+  | NOTICE ts t => exact eff_processPrivmsgNotice
+  | WHO m => exact eff_processWho
+  | WHOIS t ns => exact eff_processWhois
+  | KILL n cm => exact eff_processKill
+  | SQUIT s cm => exact eff_processSquit
+  | AWAY t => exact eff_processAway
+  | WALLOPS t => exact eff_processWallops
+  | DIE m => exact eff_processDie
+
+theorem eff_handleLine {s : Str} :
+    Eff cfg (lineKills s) (lineQuits s) c X (handleLine cfg c s X) := by
+  unfold handleLine lineKills lineQuits lineCmd
+  cases hp : Message.parse s with
+  | error e =>
+    cases e <;> (dsimp only; eff_steps)
+  | ok msg =>
+    dsimp only
+    cases hc : Command.fromMessage msg with
+    | error e => dsimp only; eff_steps
+    | ok cmd =>
+      dsimp only
+      split
+      · apply Eff.reply
+        exact Eff.modifyW (Eff.refl _) (fun _ => rfl)
+      · refine Eff.trans ?_ eff_dispatch
+        exact Eff.modifyW (Eff.refl _) (fun _ => rfl)
+
+end
+
+/-! ### 10. delivery: the settling phase only appends to the output -/
+
+theorem settleConn_outs_prefix (cfg : Cfg) (acc : World × List (Nat × Str) × List Str) (d : Nat) :
+    acc.2.1 <+: (settleConn cfg acc d).2.1 := by
+  obtain ⟨w, outs, evs⟩ := acc
+  unfold settleConn
+  simp only
+  cases hc : w.conn? d with
+  | none => exact List.prefix_refl _
+  | some cn =>
+    simp only
+    cases hq : cn.quit with
+    | true => simp [hq]
+    | false =>
+      cases hk : cn.killedBy with
+      | none => simp [hq]
+      | some p => obtain ⟨a, b⟩ := p; simp
+
+theorem settle_outs_prefix (cfg : Cfg) (w : World) (outs : List (Nat × Str)) (evs : List Str) :
+    outs <+: (settle cfg w outs evs).2.1 := by
+  unfold settle
+  have : ∀ (l : List Nat) (acc : World × List (Nat × Str) × List Str),
+      acc.2.1 <+: (l.foldl (settleConn cfg) acc).2.1 := by
+    intro l
+    induction l with
+    | nil => intro acc; exact List.prefix_refl _
+    | cons d l ih =>
+      intro acc
+      rw [List.foldl_cons]
+      exact (settleConn_outs_prefix cfg acc d).trans (ih _)
+  exact this _ (w, outs, evs)
+
+theorem finish_outs_prefix (cfg : Cfg) (c : Nat) (x : Ctx) (evs : List Str) :
+    (x.direct.map (fun l => (c, l)) ++ x.queued) <+: (finish cfg c x evs).outs := by
+  unfold finish
+  exact settle_outs_prefix cfg x.w _ evs
 
 end Irc.C05
